@@ -10,6 +10,7 @@ from props.base import Context  # noqa: F401
 
 PID = 'C08'
 TIE_MODULES = ['DiffxVerif.Tie.Sections']
+NEEDS = ['sections', 'options', 'text']
 ASSUMPTIONS = [
     'CPython codecs / json are environment; their exceptions are mapped to one "err" answer (the repaired reader turns every one into DiffXParseError)',
     'object-model clauses (error family, stream closed) are checked directly on the implementation (the DOM loader is modelled in Properties/C05)',
@@ -130,7 +131,7 @@ class Spec(object):
                 yield b''.join(rng.choice(toks) for _i in range(n // 3))
 
     def request(self, case):
-        return 'read %d %s' % (int(self.tables['chunk']), common.enc_bytes(case))
+        return 'read %d %s' % ((int(self.tables['chunk']) or 96), common.enc_bytes(case))
 
     def impl(self, case):
         return adapters.impl_read(case)
